@@ -11,6 +11,10 @@ var round7Registrations = map[string][]string{
 	"R-SCP-1":  {"C05"}, // a data-changing statement stores its result back where the innermost-first lookup found the table (C05-14)
 	"R-LOCK-6": {"C08"}, // a failing CREATE TABLE releases the handler it created (C08-13)
 	"R-OWN-1":  {"C08"}, // … and only the owner of a handler releases it
+	"R-ERR-14": {"C08"}, // round 8: a result published before its check has been passed stays behind when the check fails (C08-16)
+	"R-TXN-4":  {"C08"}, // round 8: every publisher is followed by its registration as uncommitted (C08-16)
+	"R-DET-2":  {"C18"}, // round 8: the parser keeps no lazily built package-level table (C18-16)
+	"R-MEMO-1": {"C18"},
 }
 
 func init() {
